@@ -205,6 +205,16 @@ def run(pid, repo='/repo'):
         c = a.clear_formatting()
         return None if c.base_str == a.base_str and str(c) == a.base_str else '%r vs %r' % (c.base_str, a.base_str)
     case('D34 AnsiStr.clear_formatting re-parses the text', {'C13': 'ansistr_op_eq'}, d34)
+    # D35 (found by the near-miss directive stream + grammar oracle)
+    def d35():
+        bad = []
+        for t in ('rgb()1,2,3)', 'ul_color256()17)', 'bg_rgb()0x102030)'):
+            try:
+                A('x', t); bad.append(t)
+            except ValueError:
+                pass
+        return None if not bad else 'accepted: %r' % bad
+    case('D35 stray ) accepted as opening bracket of rgb()/color256()', {'C14': 'reject_malformed'}, d35)
     # D26 — known finding: byte-level idempotence of simplify() with verbatim multi-code settings
     def d26(build):
         def f():
